@@ -67,10 +67,22 @@ fn dump_line(router: &Router<u32>) -> String {
                 skel.push(f[..5].join(","));
                 hidden.push(f[5].to_owned());
             }
-            format!("dump {} F={}", skel.join(";"), hidden.join(";"))
+            format!("dump {} F={}{}", skel.join(";"), hidden.join(";"), data_part(router))
         }
         Err(p) => panic_msg(p),
     }
+}
+/// ` I=<entries>`: what is stored with every routable node (hook `data_dump`): `depth:length:template:expanded`
+#[cfg(feature = "hookdata")]
+fn data_part(router: &Router<u32>) -> String {
+    match catch_unwind(AssertUnwindSafe(|| wayfind::verif::data_dump(router))) {
+        Ok(text) => format!(" I={}", text.lines().map(|l| l.split(' ').collect::<Vec<_>>().join(":")).collect::<Vec<_>>().join(";")),
+        Err(_) => String::new(),
+    }
+}
+#[cfg(all(feature = "hook", not(feature = "hookdata")))]
+fn data_part(_router: &Router<u32>) -> String {
+    String::new()
 }
 #[cfg(not(feature = "hook"))]
 fn dump_line(_router: &Router<u32>) -> String {
@@ -85,11 +97,41 @@ struct R {
     live: Vec<String>,
     /// every template ever inserted successfully (constraint tables keep covering deleted templates)
     ever: Vec<String>,
+    /// built-in constraints of the crate that the palette does not know (added after this harness was written): their
+    /// name and a probe router holding only `/{*x:NAME}`, through which the check function is evaluated
+    extra: Vec<(String, std::sync::Arc<Router<u8>>)>,
+}
+
+/// Constraint names that `Router::new` registers beyond the 17 the palette knows: every `const NAME` of
+/// src/constraints.rs that a fresh router accepts in a template. Found by asking the crate, not by assuming.
+fn extra_builtins() -> Vec<(String, std::sync::Arc<Router<u8>>)> {
+    static CACHE: std::sync::OnceLock<Vec<(String, std::sync::Arc<Router<u8>>)>> = std::sync::OnceLock::new();
+    CACHE.get_or_init(find_extra_builtins).clone()
+}
+
+fn find_extra_builtins() -> Vec<(String, std::sync::Arc<Router<u8>>)> {
+    let src = std::fs::read_to_string("/repo/src/constraints.rs").unwrap_or_default();
+    let re = regex::Regex::new(r#"const\s+NAME\s*:\s*&'static\s+str\s*=\s*"([A-Za-z0-9_.-]+)""#).unwrap();
+    let mut out = vec![];
+    for c in re.captures_iter(&src) {
+        let name = c[1].to_owned();
+        if palette::BUILTIN_NAMES.contains(&name.as_str()) || palette::CUSTOM_KEYS.contains(&name.as_str()) || out.iter().any(|(n, _)| *n == name) {
+            continue;
+        }
+        let probe = catch_unwind(|| {
+            let mut r = Router::<u8>::new();
+            r.insert(&format!("/{{*x:{name}}}"), 0).ok().map(|()| r)
+        });
+        if let Ok(Some(r)) = probe {
+            out.push((name, std::sync::Arc::new(r)));
+        }
+    }
+    out
 }
 
 impl Clone for R {
     fn clone(&self) -> Self {
-        R { router: self.router.clone(), checks: self.checks.clone(), types: self.types.clone(), live: self.live.clone(), ever: self.ever.clone() }
+        R { router: self.router.clone(), checks: self.checks.clone(), types: self.types.clone(), live: self.live.clone(), ever: self.ever.clone(), extra: self.extra.clone() }
     }
 }
 
@@ -276,6 +318,24 @@ impl Exec {
             return (line.to_owned(), "ok".to_owned());
         }
         match f.as_slice() {
+            ["nameck", h] => {
+                // the OCI example's name constraint (the `regex` crate at work) on one name; also compared with the
+                // hand-written recogniser of the grammar
+                let Some(Ok(n)) = unhex(h).map(String::from_utf8) else { return bad() };
+                use wayfind::Constraint;
+                let res = catch_unwind(|| palette::oci_name::NameConstraint::check(&n));
+                match res {
+                    Ok(a) => {
+                        let b = name_ok(&n);
+                        self.bump("nameck");
+                        if a != b {
+                            self.oracle.push(format!("O {idx} C17 name constraint says {a}, the distribution-spec grammar says {b} for {h}"));
+                        }
+                        (line.to_owned(), if a { "accept" } else { "reject" }.to_owned())
+                    }
+                    Err(p) => (line.to_owned(), panic_msg(p)),
+                }
+            }
             ["reset"] => {
                 self.routers.clear();
                 (line.to_owned(), "ok".to_owned())
@@ -284,11 +344,16 @@ impl Exec {
                 let Some(r) = num(r) else { return bad() };
                 let res = catch_unwind(|| Router::<u32>::new());
                 let b = palette::builtins();
-                let table: Vec<String> = b.iter().map(|(n, t, _)| format!("{}:{}", hex(n.as_bytes()), hex(t.as_bytes()))).collect();
+                let mut table: Vec<String> = b.iter().map(|(n, t, _)| format!("{}:{}", hex(n.as_bytes()), hex(t.as_bytes()))).collect();
+                let extra = extra_builtins();
+                for (n, _) in &extra {
+                    self.bump("extra-builtins");
+                    table.push(format!("{}:{}", hex(n.as_bytes()), hex(b"?")));
+                }
                 let full = format!("new {r} {}", table.join(","));
                 match res {
                     Ok(router) => {
-                        self.routers.insert(r, R { router, checks: b.iter().map(|(n, _, c)| (*n, *c)).collect(), types: b.iter().map(|(n, t, _)| (*n, *t)).collect(), live: vec![], ever: vec![] });
+                        self.routers.insert(r, R { router, checks: b.iter().map(|(n, _, c)| (*n, *c)).collect(), types: b.iter().map(|(n, t, _)| (*n, *t)).collect(), live: vec![], ever: vec![], extra });
                         (full, "ok".to_owned())
                     }
                     Err(p) => (full, panic_msg(p)),
@@ -423,6 +488,24 @@ impl Exec {
                         for e in s + 1..=ps.len() {
                             if let Some(v) = ps.get(s..e) {
                                 if check(v) && !acc.contains(&v) {
+                                    acc.push(v);
+                                }
+                            }
+                        }
+                    }
+                    let vs: Vec<String> = acc.iter().map(|v| hex(v.as_bytes())).collect();
+                    table.push(format!("{}={}", hex(name.as_bytes()), vs.join(",")));
+                }
+                for (name, probe) in &x.extra {
+                    let needle = format!(":{name}}}");
+                    if !x.ever.iter().any(|t| t.contains(&needle) || (t.contains(':') && t.contains('('))) {
+                        continue;
+                    }
+                    let mut acc: Vec<&str> = vec![];
+                    for s in 0..ps.len() {
+                        for e in s + 1..=ps.len() {
+                            if let Some(v) = ps.get(s..e) {
+                                if !acc.contains(&v) && probe.search(&format!("/{v}")).is_some() {
                                     acc.push(v);
                                 }
                             }
